@@ -85,6 +85,7 @@ type Contract struct {
 	Pkg        string
 	Clauses    []*Clause
 	Lock       string
+	SafeProps  []string // extra property tags for the safe.* obligations of the function (nopanic [Cxx])
 	Flags      map[string]bool
 	Params     []string // for extern specs: parameter names
 	Results    []string
@@ -592,6 +593,12 @@ func ParseSpecLines(pkg, file string, lines []string, lineNos []int) (*SpecFile,
 				cur.Implements = append(cur.Implements, rest)
 			case "pure", "nopanic", "trusted", "maypanic", "exceptional", "noglobals":
 				cur.Flags[kw] = true
+				// "nopanic [C16]": the zero-annotation panic-freedom obligations of this function also count for C16
+				if i, j := strings.Index(rest, "["), strings.Index(rest, "]"); kw == "nopanic" && i >= 0 && j > i {
+					for _, p := range strings.Split(rest[i+1:j], ",") {
+						cur.SafeProps = append(cur.SafeProps, strings.TrimSpace(p))
+					}
+				}
 			case "params":
 				cur.Params = strings.Fields(strings.ReplaceAll(rest, ",", " "))
 			case "results":
